@@ -590,7 +590,10 @@ def run(prog: Program, res: Result, tier: str) -> None:
     for cls_, name, want, what in unit_defs:
         pe = property_expr(prog, cls_, name)
         m = cls_.methods.get(name)
-        ok = pe is not None and norm(pe) == want
+        import re as _re
+        # a table referenced through the module it lives in (`params.nbits_to_dtype`) is the same table
+        pe_txt = _re.sub(r"\b[A-Za-z_]\w*\.nbits_to_dtype\b", "nbits_to_dtype", norm(pe)) if pe is not None else None
+        ok = pe is not None and pe_txt == want
         if not ok and pe is not None:
             try:
                 ok = PolyEnv(atom_hook=transparent_casts).poly(pe) == PolyEnv(atom_hook=transparent_casts).poly(ast.parse(want, mode="eval").body) and \
